@@ -218,13 +218,16 @@ def run(pid, tier, seed):
 
     # --- run implementation + model on corpus and generated cases
     corpus = corpus_cases(pid)
-    # escalation: when the sources this harness exercises differ from the ones the committed models were written
-    # against, the quick tier generates cases at thorough volume (a source change alone is never a violation)
+    # escalation: when a source file this property is anchored in differs from the one the committed model was
+    # written against, the tier's generators are run with three seeds instead of one (a source change alone is never
+    # a violation; the extra volume is bounded: three times the tier's generation time)
     changed, fp = vlib.fingerprint_changed(pid)
-    gen_tier = "thorough" if (changed and pid not in vlib.NO_ESCALATION and not os.environ.get("VERIF_NO_ESCALATION")) else tier
+    escalate = changed and pid not in vlib.NO_ESCALATION and not os.environ.get("VERIF_NO_ESCALATION")
+    gen_tier = tier
+    seeds = [seed, seed + 1000, seed + 2000] if escalate else [seed]
     if changed:
-        notes.append("source fingerprint of %s differs from tools/fingerprints.json: generators run at %s volume" % (
-            " ".join(vlib.WATCH[pid]), gen_tier))
+        notes.append("source fingerprint of %s differs from tools/fingerprints.json: generators run with seeds %s" % (
+            " ".join(vlib.WATCH[pid]), seeds))
     rc, out = sh([h_exe, "gen", pid, gen_tier, str(seed), work], timeout=6000)
     if rc != 0:
         sys.stdout.write(out[-3000:])
@@ -233,11 +236,15 @@ def run(pid, tier, seed):
     cases = read_lines(os.path.join(work, "cases.txt"))
     impl = read_lines(os.path.join(work, "impl.txt"))
     meta = read_lines(os.path.join(work, "meta.txt"))
-    # further generators of the same harness whose cases belong to this check (e.g. the end-to-end cases of C10)
-    for xp in cfg.get("extra_gen", []):
-        w2 = os.path.join(work, "extra-" + xp)
+    # further generators of the same harness whose cases belong to this check (e.g. the end-to-end cases of C10),
+    # and the additional seeds of an escalated run
+    extra = [(xp, seed) for xp in cfg.get("extra_gen", [])]
+    for sd in seeds[1:]:
+        extra += [(xp, sd) for xp in [pid] + cfg.get("extra_gen", [])]
+    for xp, sd in extra:
+        w2 = os.path.join(work, "extra-%s-%d" % (xp, sd))
         os.makedirs(w2, exist_ok=True)
-        rc, out = sh([h_exe, "gen", xp, gen_tier, str(seed), w2], timeout=6000)
+        rc, out = sh([h_exe, "gen", xp, gen_tier, str(sd), w2], timeout=6000)
         if rc != 0:
             sys.stdout.write(out[-3000:])
             print("ERROR: harness failed (generator %s)" % xp)
@@ -331,7 +338,7 @@ def run(pid, tier, seed):
         evaluations=len(cases), distinct_nontrivial=len(distinct), rule=cfg["rule"],
         samples=samples, generator_histogram=dict(hist), implementation_outcomes=dict(outcome),
         model_vs_implementation_differences=len(diffs), corpus_cases=len(corpus),
-        known_findings_hit=list(known_hits.keys()), notes=notes, source_changed=changed, generator_volume=gen_tier,
+        known_findings_hit=list(known_hits.keys()), notes=notes, source_changed=changed, generator_seeds=seeds,
         coqchk=(dict(ok=chk["ok"], axioms=chk["axioms"], unsafe=chk["unsafe"]) if chk else "thorough tier only"),
     )
     vlib.write_evidence(pid, tier, seed, coverage,
